@@ -1,7 +1,7 @@
 #!/bin/bash
 # usage: run_seed.sh <PROP> <VARIANT> [tier]  -- runs ./vf check <PROP> against the scratch worktree with the seeded change applied
 P=$1; V=$2; T=${3:-quick}; W=/tmp/mut/$P; D=/verif/seeded/$P-$V
-cd $W && git checkout -q -- . && git apply $D/patch.diff || exit 2
+cd $W && git checkout -q -- . && git apply $(ls $D/patch_rebased*.diff 2>/dev/null || echo $D/patch.diff) || exit 2
 mkdir -p /tmp/w/seedev /tmp/w/seedrp
 cd /verif && VF_REPO=$W VF_EVIDENCE_DIR=/tmp/w/seedev VF_REPLAY_DIR=/tmp/w/seedrp ./vf check $P --tier $T 2>&1 | cut -c1-400 | tee $D/check_output.txt
 RC=${PIPESTATUS[0]}
